@@ -12,6 +12,19 @@ CHECKS = {
             "Trusted: the Python reference (ref_num.py) and the canonical encoder hook. Operands outside the alphabet are not covered; "
             "inexact n-ary folds, float formatting and (/ x 0) with inexact x are left unspecified.",
             "DESIGN.md §3 C10"),
+    "C14": ("exploration",
+            "small-scope exhaustive enumeration of module graphs x export profiles x require modifiers x orders of requiring programs on one real engine, against a Python visibility/instantiation model; exhaustive contract-boundary argument grid",
+            "Graphs {single, chain, fan-in, diamond, chain of 3} over generated files; every module has a private helper of the same spelling, x / y in {absent, private, "
+            "provided, contract/out} and a provided aggregate of everything it imported; every edge carries one of {plain, only-in, only-in with renaming, prefix-in, "
+            "prefix-in(only-in), only-in naming a private identifier}; for the diamond every ordered sequence of up to 3 of 4 requiring programs (plus repeats) runs on one "
+            "engine. After every program every identifier of the candidate universe (names x prefixes in play) is evaluated in a unit of its own: exactly the model's value, "
+            "a contract error or a free-identifier error. Module bodies print a marker: exactly one per instantiated module over the history. 16 histories in which a "
+            "module fails (syntax / free identifier / run-time / arity) and is corrected. Contract grid: arity 0..4, different predicate per position, all argument tuples "
+            "over one value per predicate, from outside (checked) and inside (unchecked), range contracts, via plain / prefixed / re-exporting requires. Both "
+            "STEEL_MODULE_INLINE settings.",
+            "Two imports of one spelling at top level: later require wins. for-syntax requires and macros crossing modules are exercised by C13, cyclic graphs are outside "
+            "the property. Graphs beyond 4 files and sequences beyond 3 programs are outside the bound.",
+            "DESIGN.md §3 C14"),
     "C13": ("exploration",
             "small-scope exhaustive enumeration of syntax-rules definitions and uses on the real expander: (pattern x template x argument tuple) grid against a reference matcher, and a metamorphic re-spelling relation for hygiene over binder kinds x use sites x spellings x definition sites",
             "33 argument patterns (literals, one and two ellipsis levels, compound patterns under an ellipsis, patterns after an ellipsis, dotted tails, zero matches) x "
